@@ -25,14 +25,16 @@ ORDER_DESTROYING = {"sorted", "sort", "unique", "set", "frozenset"}
 ORDER_KEEPING = {"tuple", "list", "array", "asarray"}
 
 
-def _is_modes_source(e: ast.AST) -> bool:
-    """`<x>.modes` on an instruction-like object."""
-    return isinstance(e, ast.Attribute) and e.attr in ("modes", "_modes") and isinstance(e.value, ast.Name) and e.value.id != "self"
+def _is_modes_source(e: ast.AST, base: Optional[str] = None) -> bool:
+    """`<x>.modes` on an instruction-like object (of the object `base` only, when given)."""
+    return isinstance(e, ast.Attribute) and e.attr in ("modes", "_modes") and isinstance(e.value, ast.Name) and e.value.id != "self" \
+        and (base is None or e.value.id == base)
 
 
 class ModesTaint:
-    def __init__(self, fn: FuncInfo, tainted_params: Set[str]):
+    def __init__(self, fn: FuncInfo, tainted_params: Set[str], base: Optional[str] = None):
         self.fn = fn
+        self.base = base
         self.t: Set[str] = set(tainted_params)
         self.comp: Set[str] = set()
         changed = True
@@ -55,7 +57,7 @@ class ModesTaint:
     def derived(self, e: ast.AST) -> bool:
         """The expression denotes the requested mode tuple itself, re-wrapped or mapped elementwise with its order
         kept (2 * modes, 2 * modes + 1, concatenations / lists of such images)."""
-        if _is_modes_source(e):
+        if _is_modes_source(e, self.base):
             return True
         if isinstance(e, ast.Name):
             return e.id in self.t
@@ -143,6 +145,16 @@ def _uses_modes_directly(e: ast.AST, mt: "ModesTaint") -> bool:
     return False
 
 
+def _following(fn: FuncInfo, node: ast.stmt) -> List[ast.stmt]:
+    """The statements that follow `node` in the statement list that contains it."""
+    for parent in ast.walk(fn.node):
+        for field in ("body", "orelse", "finalbody"):
+            lst = getattr(parent, field, None)
+            if isinstance(lst, list) and node in lst:
+                return lst[lst.index(node) + 1:]
+    return []
+
+
 def _order_insensitive_test(test: ast.AST, mt: "ModesTaint", agg: Set[str]) -> bool:
     """The test mentions the mode tuple, but only inside len/min/max/sum/set(...) or through names bound to those."""
     mentions = False
@@ -185,6 +197,11 @@ def run(ctx: Context) -> None:
             for c in [s.state_class] + s.state_class.mro():
                 for m in c.methods.values():
                     roots.append((m, {p for p in m.all_params() if p in ("modes", "mode")}))
+    # program composition and the simulator's own handling of the mode tuple (anchors api/program.py, api/simulator.py)
+    for mod, cname in (("piquasso.api.program", "Program"), ("piquasso.api.simulator", "Simulator"), ("piquasso.api.instruction", "Instruction")):
+        c = idx.find_class(mod, cname)
+        for m in c.methods.values():
+            roots.append((m, {p for p in m.all_params() if p in ("modes", "mode")}))
     n_funcs, n_uses = scan_order(ctx, res, roots, "C16a", "C16b")
     ctx.count("functions examined", n_funcs)
     ctx.require_floor("functions examined", n_funcs, 150)
@@ -266,7 +283,10 @@ def scan_order(ctx: Context, res, roots, rule_a: str, rule_b: str) -> Tuple[int,
                                           f"reduced states come out in natural mode order", norm(n).split("\n")[0][:110])
             # (a'') an order-insensitive test (len / min / max / sum / set of the mode tuple) that selects between a value
             #       computed from the mode tuple and a substitute computed without it (both branches bind the same name)
-            if isinstance(n, (ast.IfExp, ast.If)):
+            bases = sorted({x.value.id for x in walk_no_nested(fn.node) if _is_modes_source(x)})
+            mt0 = mt
+            for mt in ([mt0] if len(bases) < 2 else [ModesTaint(fn, set(), b) for b in bases]):
+              if isinstance(n, (ast.IfExp, ast.If)):
                 agg = _aggregate_names(fn, mt)
                 if _order_insensitive_test(n.test, mt, agg):
                     pairs: List[Tuple[ast.AST, ast.AST]] = []
@@ -284,6 +304,18 @@ def scan_order(ctx: Context, res, roots, rule_a: str, rule_b: str) -> Tuple[int,
                         b1, b2 = binds(n.body), binds(n.orelse)
                         for k_ in sorted(set(b1) & set(b2)):
                             pairs.append((b1[k_], b2[k_]))
+                        # `if test: return A` with the alternative returned by the else branch or by the statements that follow
+                        def ret_of(stmts):
+                            for st in stmts:
+                                if isinstance(st, ast.Return) and st.value is not None:
+                                    return st.value
+                                if isinstance(st, (ast.If, ast.For, ast.While, ast.Try, ast.With)):
+                                    return None
+                            return None
+                        r1 = ret_of(n.body)
+                        r2 = ret_of(n.orelse) if n.orelse else ret_of(_following(fn, n))
+                        if r1 is not None and r2 is not None:
+                            pairs.append((r1, r2))
                     for e1, e2 in pairs:
                         u1 = _uses_modes_directly(e1, mt)
                         u2 = _uses_modes_directly(e2, mt)
@@ -295,6 +327,36 @@ def scan_order(ctx: Context, res, roots, rule_a: str, rule_b: str) -> Tuple[int,
                                               f"`{norm(n.test)}` looks only at order-insensitive aggregates of the mode tuple (its length / smallest / largest "
                                               f"element) and then replaces the value computed from the mode tuple by `{norm(sub)[:60]}`, which ignores the "
                                               f"order of the modes: Q(1, 0) is treated like Q(0, 1)", norm(n).split("\n")[0][:110])
+            mt = mt0
+            # (c) sequential positional edits: inside `for m in modes` (also through zip / enumerate) an np.insert / np.delete /
+            #     list.insert / pop at position m on an object that is carried from one iteration to the next - every edit
+            #     shifts the later positions, so the result depends on the order of the mode tuple (right for ascending modes only)
+            if isinstance(n, ast.For):
+                it = n.iter
+                srcs: List[Tuple[ast.AST, ast.AST]] = []
+                if mt.derived(it):
+                    srcs.append((n.target, it))
+                elif isinstance(it, ast.Call) and (dotted(it.func) or "") in ("zip", "enumerate") and isinstance(n.target, ast.Tuple):
+                    if dotted(it.func) == "zip" and len(it.args) == len(n.target.elts):
+                        srcs += [(t, a) for t, a in zip(n.target.elts, it.args) if mt.derived(a)]
+                    elif dotted(it.func) == "enumerate" and it.args and mt.derived(it.args[0]) and len(n.target.elts) == 2:
+                        srcs.append((n.target.elts[1], it.args[0]))
+                loop_vars = {t.id for t, _ in srcs if isinstance(t, ast.Name)}
+                if loop_vars:
+                    for c in [x for b in n.body for x in ast.walk(b) if isinstance(x, ast.Call)]:
+                        nm_ = (dotted(c.func) or "").split(".")[-1] or (c.func.attr if isinstance(c.func, ast.Attribute) else "")
+                        pos = obj = None
+                        if nm_ in ("insert", "delete") and isinstance(c.func, ast.Attribute) and (dotted(c.func.value) or "").split(".")[-1] in ("np", "numpy", "fallback_np") \
+                                and len(c.args) >= 2:
+                            obj, pos = c.args[0], c.args[1]
+                        elif nm_ in ("insert", "pop") and isinstance(c.func, ast.Attribute) and c.args:
+                            obj, pos = c.func.value, c.args[0]
+                        if pos is not None and isinstance(pos, ast.Name) and pos.id in loop_vars and isinstance(obj, ast.Name):
+                            key = f"{fn.qualname}|sequential {nm_} at positions from the mode tuple"
+                            ctx.violation(rule_b, key, fn.file, c.lineno,
+                                          f"`{norm(c)[:80]}` edits `{obj.id}` at a position taken from the mode tuple inside a loop over the mode tuple: every "
+                                          f"edit shifts the later positions, so the result is right for ascending modes only (Q(2, 0) differs from Q(0, 2))",
+                                          norm(c)[:100])
             # (b) destroyed order that is bound / passed / returned
             cand: List[Tuple[ast.AST, str]] = []
             if isinstance(n, ast.Assign):
